@@ -41,6 +41,10 @@ def do_call(obj, call):
             elif o[0] == "tell":
                 r = obj.tell()
         return r
+    if op == "meta":
+        return obj.meta()
+    if op == "snapshots":
+        return obj.snapshots()
     if op == "unlock":
         return obj.unlock()
     if op in ("chain", "walk") or (op == "open" and hasattr(obj, "kind")):
@@ -132,6 +136,20 @@ def main():
     if "max_inflate" in exp:
         ok = inflated[0] <= exp["max_inflate"]
         print(f"{'MATCH' if ok else 'MISMATCH'} largest inflate output {inflated[0]} (bound {exp['max_inflate']})")
+        return 0 if ok else 1
+    if "qcow2_meta" in exp:
+        w = exp["qcow2_meta"]
+        g = dict(res)
+        bf = g.get("backing_format")
+        ok = (g["feature_table"] == w["feature_table"] and g["image_data_file"] == w["image_data_file"]
+              and g["unknown"] == w["unknown"] and g["auto_backing_file"] == w["auto_backing_file"]
+              and ((bf is None) == (w["backing_format"] is None))
+              and (bf is None or bf == bytes.fromhex(w["backing_format"]).decode(errors="replace").upper()))
+        print(f"{'MATCH' if ok else 'MISMATCH'} exposed {g} stored {w}"[:900])
+        return 0 if ok else 1
+    if "snapshots" in exp:
+        ok = [list(x) for x in res] == exp["snapshots"]
+        print(f"{'MATCH' if ok else 'MISMATCH'} snapshots {res} stored {exp['snapshots']}"[:900])
         return 0 if ok else 1
     if "unlock" in exp:
         outcome, state_ok, exc = res
